@@ -103,9 +103,54 @@ def g_shift_reread(tier):
     return P
 
 
+def g_reload_flags(tier):
+    """R = v; <statement that sets N/Z without touching R or v>; R = v; <zero test of R>: the second load is redundant as a value, not as
+    the source of the flags the test consumes (R in X, Y, a variable through A)"""
+    srcs = [('va', lambda: V('va')), ('a1', lambda: Index('arr', C(1))), ('k0', lambda: C(0)), ('k3', lambda: C(3)), ('sa', lambda: V('sa'))]
+    def clobbers(r):
+        o = 'Y' if r == 'X' else 'X'
+        return [('%s--' % o, lambda: ExprS(Inc('--', False, V(o)))), ('%s++' % o, lambda: ExprS(Inc('++', False, V(o)))), ('vb++', lambda: ExprS(Inc('++', False, V('vb')))), ('vc=vd', lambda: A(V('vc'), V('vd'))),
+                ('vc=0', lambda: A(V('vc'), C(0))), ('%s=vd' % o, lambda: A(V(o), V('vd'))), ('b2--', lambda: ExprS(Inc('--', False, Index('brr', C(2))))), ('vc+=vd', lambda: A(V('vc'), V('vd'), '+=')), ('wa++', lambda: ExprS(Inc('++', False, V('wa')))),
+                ('load', lambda: Raw('load', V('vd'))), ('cs3', lambda: Raw('csleep', 3)), ('cmp', lambda: If(B('==', V('vd'), C(5)), A(V('vc'), C(9))))]
+    for r in ('X', 'Y', 'hb0'):
+        R = (lambda: V(r)) if r != 'hb0' else (lambda: V('vd'))
+        for (sn, sv), (cn, cl) in itertools.product(srcs, clobbers(r if r != 'hb0' else 'X')):
+            if r == 'hb0' and ('vd' in cn or 'vc=' in cn): continue
+            base = 'w5/reload-flags/%s=%s/%s' % (r, sn, cn)
+            if not keep(base, tier, 50): continue
+            yield mkprog(base + '/if', [A(R(), sv()), cl(), A(R(), sv()), If(R(), A(V('sc'), C(1)), A(V('sc'), C(2)))])
+            yield mkprog(base + '/if0', [A(R(), sv()), cl(), A(R(), sv()), If(B('==', R(), C(0)), A(V('sc'), C(1)))])
+            yield mkprog(base + '/tern', [A(R(), sv()), cl(), A(R(), sv()), A(V('sc'), Tern(R(), C(1), C(2)))])
+            yield mkprog(base + '/neg', [A(R(), sv()), cl(), A(R(), sv()), If(B('<', R(), C(128)), A(V('sc'), C(1)), A(V('sc'), C(2)))])
+            yield mkprog(base + '/twice', [A(R(), sv()), cl(), cl(), A(R(), sv()), If(Un('!', R()), A(V('sc'), C(1)))])
+
+
+def g_signflag(tier):
+    """a statement that updates a signed variable (8- and 16-bit: the 16-bit increment is INC lo / BNE / INC hi, whose final N flag is
+    not the sign of the value), then a SIGN test of it"""
+    setters = [('ha++', lambda: ExprS(Inc('++', False, V('ha'))), 'ha'), ('++ha', lambda: ExprS(Inc('++', True, V('ha'))), 'ha'), ('ha--', lambda: ExprS(Inc('--', False, V('ha'))), 'ha'), ('ha+=1', lambda: A(V('ha'), C(1), '+=')), 
+               ('ha=hb', lambda: A(V('ha'), V('hb')), 'ha'), ('ha=hb+hc', lambda: A(V('ha'), B('+', V('hb'), V('hc'))), 'ha'), ('ha=sa', lambda: A(V('ha'), V('sa')), 'ha'), ('ha-=hb', lambda: A(V('ha'), V('hb'), '-='), 'ha'),
+               ('sa++', lambda: ExprS(Inc('++', False, V('sa'))), 'sa'), ('sa--', lambda: ExprS(Inc('--', False, V('sa'))), 'sa'), ('sa=sb', lambda: A(V('sa'), V('sb')), 'sa'), ('sa=sb-1', lambda: A(V('sa'), B('-', V('sb'), C(1))), 'sa'),
+               ('sa+=sb', lambda: A(V('sa'), V('sb'), '+='), 'sa'), ('sa=-sb', lambda: A(V('sa'), Un('-', V('sb'))), 'sa'), ('h1++', lambda: ExprS(Inc('++', False, Index('harr', C(1)))), None)]
+    setters = [(t[0], t[1], t[2] if len(t) > 2 else 'ha') for t in setters if t[0] != 'h1++']
+    one, two = (lambda: A(V('sc'), C(1))), (lambda: A(V('sc'), C(2)))
+    for (sn, st, z), (tn, op) in itertools.product(setters, (('lt0', '<'), ('ge0', '>='))):
+        Z = lambda: V(z)
+        t = lambda: B(op, Z(), C(0))
+        base = 'w5/signflag/%s/%s' % (sn, tn)
+        yield mkprog(base + '/if', [st(), If(t(), one(), two())])
+        yield mkprog(base + '/tern', [st(), A(V('sc'), Tern(t(), C(1), C(2)))])
+        yield mkprog(base + '/and', [st(), If(B('&&', t(), V('vd')), one(), two())])
+        yield mkprog(base + '/else-if', [st(), If(V('vd'), one(), If(t(), two(), A(V('sc'), C(3))))])
+        yield mkprog(base + '/not', [st(), If(Un('!', t()), one(), two())])
+        yield mkprog(base + '/while', [st(), A(V('hc'), C(2)), While(B('&&', t(), V('hc')), ExprS(Inc('--', False, V('hc')))), one()])
+
+
 def g_wave4(tier):
     yield from g_hwflags(tier)
     yield from g_logic_else(tier)
     yield from g_switch_orders(tier)
     yield from g_continue_switch(tier)
     yield from g_shift_reread(tier)
+    yield from g_reload_flags(tier)
+    yield from g_signflag(tier)
